@@ -187,6 +187,33 @@ func (vc *validCtx) sourcesIn(fi *load.FuncInfo, body *ast.BlockStmt) (map[types
 					}
 				}
 			}
+			if len(x.Rhs) == len(x.Lhs) && len(x.Rhs) > 1 {
+				// a, b := f(x), g(y): each pair on its own
+				for i := range x.Rhs {
+					call, ok := ast.Unparen(x.Rhs[i]).(*ast.CallExpr)
+					if !ok {
+						continue
+					}
+					if tv, ok := info.Types[call.Fun]; ok && tv.IsType() {
+						continue
+					}
+					f := gf.StaticCallee(info, call)
+					sig, _ := info.TypeOf(call.Fun).Underlying().(*types.Signature)
+					if sig == nil || sig.Results().Len() != 1 || f == nil {
+						continue
+					}
+					if v := local(x.Lhs[i]); v != nil {
+						why, may := mayReturnNil[f.FullName()]
+						if !may && f.Pkg() != nil && inRepoPkg(f.Pkg().Path()) && vc.mayReturnNilLiteral(f.Origin()) {
+							why, may = "has a `return nil`", true
+						}
+						if may {
+							srcs[v] = append(srcs[v], nilSrc{v, "S2", "result of " + types.ExprString(call.Fun) + " (" + why + ")", x, nil})
+							handled[i] = true
+						}
+					}
+				}
+			}
 			for i, l := range x.Lhs {
 				if handled[i] {
 					continue
